@@ -167,6 +167,7 @@ def run(ctx: common.Ctx):
                     f'{len(missing)} peptide(s) of the {kind} definition are missing from the callVariant '
                     f'FASTA, e.g. {sorted(missing)[:3]}', dict(r['desc'], kind='missing-' + kind,
                                                                missing=sorted(missing)[:20]))
+    cv_checks.fusion_pairs(ctx, ctx.n(40, 600))
     ctx.coverage['worker_stats'] = {'trypsin-noexc': stats, 'trypsin-exc': stats2,
                                     'all-enzymes': stats3, 'special-codons': stats4,
                                     'nested-in-splicing': stats5}
